@@ -74,7 +74,11 @@ func (c Command) ExecuteIQ(ctx context.Context, iq stanza.IQ, payload xml.TokenR
 	if err != nil {
 		return resp, nil, err
 	}
-	start := t.(xml.StartElement)
+	start, ok := t.(xml.StartElement)
+	if !ok {
+		err = errors.New("commands: expected IQ start token in response")
+		return resp, nil, err
+	}
 	respIQ, err := stanza.UnmarshalIQError(respPayload, start)
 	if err != nil {
 		return resp, nil, err
@@ -84,7 +88,11 @@ func (c Command) ExecuteIQ(ctx context.Context, iq stanza.IQ, payload xml.TokenR
 	if err != nil {
 		return resp, nil, err
 	}
-	start = t.(xml.StartElement)
+	start, ok = t.(xml.StartElement)
+	if !ok {
+		err = errors.New("commands: expected payload start token in response")
+		return resp, nil, err
+	}
 	resp, err = respFromStart(start, respIQ)
 	if err != nil {
 		return resp, nil, err
